@@ -767,12 +767,33 @@ def absorbed(F):
     """Helpers unknown to the rules, and closures whose only use was expanded in place: analysed where they are used."""
     if "_absorbed" not in F.__dict__:
         out = set()
+        called = set()
+        for name, bs in F.bodies.items():
+            for raw in bs:
+                for blk in raw["mir"]["blocks"]:
+                    t = blk["term"]
+                    if t and t["t"] == "call":
+                        d = callee_def(t)
+                        if d and d != name:
+                            called.add(d)
         for name in F.bodies:
             if is_helper(F, name):
-                out.add(name)
+                # a new *public* function is API surface, and a new function nobody calls has no context to be analysed in:
+                # both are analysed as bodies of their own (only private helpers with callers are hidden behind their call sites)
+                vis = ((F.fns.get(name) or [{}])[0]).get("vis", "pub")
+                if vis != "pub" and name in called:
+                    out.add(name)
         if baseline() is not None and not os.environ.get("VERIF_NO_INLINE"):
             for name, bs in F.bodies.items():
                 if len(bs) == 1 and "{closure" not in name:
                     out |= {x for x in prepare(F, bs[0])[1] if "{closure" in x}
         F._absorbed = out
     return F._absorbed
+
+
+def only_new(names):
+    """All of these functions are new relative to the pinned tree (a who-may rule then reports "not established", not "refuted":
+    a correct addition writes the same fields)."""
+    base = baseline()
+    names = [n.split(" (")[0] for n in names]
+    return bool(names) and base is not None and all(n not in base for n in names)
